@@ -40,6 +40,71 @@ static void finalCounts(int n)
   for(int i = 0; i < n; ++i) if(execCount[i] != 1) vf_failf("C10:exactly-once", "call %d was executed %d times", i, execCount[i]);
 }
 
+// ------------------------------------------------------------------------------------------------ every start() overload
+// free functions with 0..5 parameters and member functions with 0..4 parameters, with and without a result: each must run once with
+// exactly the arguments given (distinct values per position) and deliver its own result
+static int ovCalls[24]; static long ovArgs[24];
+#define OV(id, expr) do { ++ovCalls[id]; ovArgs[id] = (expr); } while(0)
+static void fv0() { OV(0, 0); }
+static void fv1(int a) { OV(1, a); }
+static void fv2(int a, int b) { OV(2, a * 10 + b); }
+static void fv3(int a, int b, int c) { OV(3, (a * 10 + b) * 10 + c); }
+static void fv4(int a, int b, int c, int d) { OV(4, ((a * 10 + b) * 10 + c) * 10 + d); }
+static void fv5(int a, int b, int c, int d, int e) { OV(5, (((a * 10 + b) * 10 + c) * 10 + d) * 10 + e); }
+static int fr0() { OV(6, 0); return 600; }
+static int fr1(int a) { OV(7, a); return 700 + a; }
+static int fr2(int a, int b) { OV(8, a * 10 + b); return 800 + a * 10 + b; }
+static int fr3(int a, int b, int c) { OV(9, (a * 10 + b) * 10 + c); return 9000 + (a * 10 + b) * 10 + c; }
+static int fr4(int a, int b, int c, int d) { OV(10, ((a * 10 + b) * 10 + c) * 10 + d); return 100000 + ((a * 10 + b) * 10 + c) * 10 + d; }
+static int fr5(int a, int b, int c, int d, int e) { OV(11, (((a * 10 + b) * 10 + c) * 10 + d) * 10 + e); return 1100000 + (((a * 10 + b) * 10 + c) * 10 + d) * 10 + e; }
+struct OvObj
+{
+  int tag;
+  void mv0() { OV(12, tag); }
+  void mv1(int a) { OV(13, tag * 10 + a); }
+  void mv2(int a, int b) { OV(14, (tag * 10 + a) * 10 + b); }
+  void mv3(int a, int b, int c) { OV(15, ((tag * 10 + a) * 10 + b) * 10 + c); }
+  void mv4(int a, int b, int c, int d) { OV(16, (((tag * 10 + a) * 10 + b) * 10 + c) * 10 + d); }
+  int mr0() { OV(17, tag); return 1700 + tag; }
+  int mr1(int a) { OV(18, tag * 10 + a); return 1800 + a; }
+  int mr2(int a, int b) { OV(19, (tag * 10 + a) * 10 + b); return 1900 + a * 10 + b; }
+  int mr3(int a, int b, int c) { OV(20, ((tag * 10 + a) * 10 + b) * 10 + c); return 20000 + (a * 10 + b) * 10 + c; }
+  int mr4(int a, int b, int c, int d) { OV(21, (((tag * 10 + a) * 10 + b) * 10 + c) * 10 + d); return 210000 + ((a * 10 + b) * 10 + c) * 10 + d; }
+};
+static void ovCheck(int id, long args, const char* what)
+{
+  if(ovCalls[id] != 1) vf_failf("C10:exactly-once", "%s was executed %d times", what, ovCalls[id]);
+  else if(ovArgs[id] != args) vf_failf("C10:arguments", "%s received arguments encoded as %ld, given %ld", what, ovArgs[id], args);
+}
+static void ovResult(int got, int want, const char* what) { if(got != want) vf_failf("C10:result", "%s: converted result %d, the function returned %d", what, got, want); }
+static void allOverloads()
+{
+  for(int i = 0; i < 24; ++i) { ovCalls[i] = 0; ovArgs[i] = -1; }
+  OvObj o; o.tag = 9;
+  { Future<void> f; f.start(fv0); f.join(); ovCheck(0, 0, "void f()"); }
+  { Future<void> f; f.start(fv1, 1); f.join(); ovCheck(1, 1, "void f(a)"); }
+  { Future<void> f; f.start(fv2, 1, 2); f.join(); ovCheck(2, 12, "void f(a,b)"); }
+  { Future<void> f; f.start(fv3, 1, 2, 3); f.join(); ovCheck(3, 123, "void f(a,b,c)"); }
+  { Future<void> f; f.start(fv4, 1, 2, 3, 4); f.join(); ovCheck(4, 1234, "void f(a,b,c,d)"); }
+  { Future<void> f; f.start(fv5, 1, 2, 3, 4, 5); f.join(); ovCheck(5, 12345, "void f(a,b,c,d,e)"); }
+  { Future<int> f; f.start(fr0); int r = f; ovCheck(6, 0, "int f()"); ovResult(r, 600, "int f()"); }
+  { Future<int> f; f.start(fr1, 1); int r = f; ovCheck(7, 1, "int f(a)"); ovResult(r, 701, "int f(a)"); }
+  { Future<int> f; f.start(fr2, 1, 2); int r = f; ovCheck(8, 12, "int f(a,b)"); ovResult(r, 812, "int f(a,b)"); }
+  { Future<int> f; f.start(fr3, 1, 2, 3); int r = f; ovCheck(9, 123, "int f(a,b,c)"); ovResult(r, 9123, "int f(a,b,c)"); }
+  { Future<int> f; f.start(fr4, 1, 2, 3, 4); int r = f; ovCheck(10, 1234, "int f(a,b,c,d)"); ovResult(r, 101234, "int f(a,b,c,d)"); }
+  { Future<int> f; f.start(fr5, 1, 2, 3, 4, 5); int r = f; ovCheck(11, 12345, "int f(a,b,c,d,e)"); ovResult(r, 1112345, "int f(a,b,c,d,e)"); }
+  { Future<void> f; f.start(o, &OvObj::mv0); f.join(); ovCheck(12, 9, "void C::m()"); }
+  { Future<void> f; f.start(o, &OvObj::mv1, 1); f.join(); ovCheck(13, 91, "void C::m(a)"); }
+  { Future<void> f; f.start(o, &OvObj::mv2, 1, 2); f.join(); ovCheck(14, 912, "void C::m(a,b)"); }
+  { Future<void> f; f.start(o, &OvObj::mv3, 1, 2, 3); f.join(); ovCheck(15, 9123, "void C::m(a,b,c)"); }
+  { Future<void> f; f.start(o, &OvObj::mv4, 1, 2, 3, 4); f.join(); ovCheck(16, 91234, "void C::m(a,b,c,d)"); }
+  { Future<int> f; f.start(o, &OvObj::mr0); int r = f; ovCheck(17, 9, "int C::m()"); ovResult(r, 1709, "int C::m()"); }
+  { Future<int> f; f.start(o, &OvObj::mr1, 1); int r = f; ovCheck(18, 91, "int C::m(a)"); ovResult(r, 1801, "int C::m(a)"); }
+  { Future<int> f; f.start(o, &OvObj::mr2, 1, 2); int r = f; ovCheck(19, 912, "int C::m(a,b)"); ovResult(r, 1912, "int C::m(a,b)"); }
+  { Future<int> f; f.start(o, &OvObj::mr3, 1, 2, 3); int r = f; ovCheck(20, 9123, "int C::m(a,b,c)"); ovResult(r, 20123, "int C::m(a,b,c)"); }
+  { Future<int> f; f.start(o, &OvObj::mr4, 1, 2, 3, 4); int r = f; ovCheck(21, 91234, "int C::m(a,b,c,d)"); ovResult(r, 211234, "int C::m(a,b,c,d)"); }
+}
+
 // ------------------------------------------------------------------------------------------------ scenarios
 static uint clientA(void*) { Future<int> f; f.start(work0, 3); int r = f; checkCall(0, 3, r, "result conversion"); checkState(f, false, "client A"); return 0; }
 static uint clientB(void*) { Future<int> f; f.start(work1, 4); f.join(); int r = f; checkCall(1, 4, r, "join"); checkState(f, false, "client B"); return 0; }
@@ -109,6 +174,13 @@ static void scen(int variant)
     calls = 4;
     break;
   }
+  case 10: // F11: every start() overload once, one after the other, on a one-worker pool
+  {
+    installPool(1, 1, 2);
+    allOverloads();
+    calls = 0;
+    break;
+  }
   case 9: // F10: an aborted call, then the same Future started again without abort: the old request must not leak into the new call
   {
     installPool(1, 3, 2);
@@ -153,5 +225,5 @@ static void scen(int variant)
 
 extern "C" int vf_scenario_count(void) { return 1; }
 extern "C" const char* vf_scenario_name(int) { return "future"; }
-extern "C" int vf_scenario_variants(int) { return 10; }
+extern "C" int vf_scenario_variants(int) { return 11; }
 extern "C" void vf_scenario_run(int, int variant) { scen(variant); }
